@@ -965,7 +965,7 @@ def public(c):
 
 
 def run(ctx):
-    ctx.obligations_stage(PROPS, extra_targets=['C11/Examples.vo', 'C11/MGSolve.vo'])
+    ctx.obligations_stage(PROPS, extra_targets=['C11/Examples.vo', 'C11/ExamplesSets.vo', 'C11/MGSolve.vo'], gate_dirs=['C04'])
     ctx.assumptions += [
         'model: hand transcription of relaxation_cy.gauss_seidel/gauss_seidel_indexed, solvers.gauss_seidel, '
         'iterative_solve, twogrid (loop), local_mg_step and the set structure of HSpace.*_indices into Gallina over Qc '
@@ -1123,8 +1123,8 @@ def run(ctx):
     ctx.cov['rounding'] = {'gs_bound': 'running forward error bound, g=(n+6)u', 'gs_max_observed_over_bound': maxratio,
                            'gs_bit_exact_cases': exact_hits, 'mg_bound': '10 L (2s+2) n u kappa scale',
                            'mg_max_observed_over_bound': stats['mg_max_dev_over_bound']}
-    ctx.cov['partial'] = ['smoothing_sets_spec_partial: canonical numbering / reachable HSpace states not modelled (C04); full statement evaluated on the implementation',
-                          'mg_exact_energy_monotone_partial: see Props.v']
+    ctx.cov['partial'] = ['smoothing_sets_spec_partial: strategies trunc/func_supp only at the level of function sets (not in the C04 model); '
+                          'success and uniqueness of the position search on reachable states not proved; all four strategies are evaluated on the implementation']
     ctx.cov['exhaustive'] = False
     if gs_cases:
         ctx.sample({'gauss_seidel': public(gs_cases[0]), 'impl': out['gs'][0]})
@@ -1189,6 +1189,6 @@ def replay(ctx, doc):
 
 META = {
     'technique': 'Rocq proofs over exact rationals (row-update order by induction on the while loops, textbook update by finite-sum algebra, energy identity for subspace corrections, stopping rules as state machines, multigrid fixed point by induction over the levels) + correspondence of the Gallina model with solvers.gauss_seidel / relaxation_cy / iterative_solve / local_mg_step on generated inputs under a derived running rounding bound (iteration counts and exactly computable iterates compared exactly) + the property predicate evaluated on the implementation with independent exact/numpy oracles',
-    'level_text': 'Theorems (Coq, unbounded, exact arithmetic Qc): solvers.gauss_seidel performs exactly the row updates of the stated order for dense and CSR input, any index list, sweep and iteration count (gs_update_order); each is the textbook update of the denoted matrix for every CSR with explicit zeros, unsorted or repeated off-diagonal coordinates and at most one stored diagonal entry (gs_textbook, gs_textbook_dense, gs_dense_sparse_agree, gs_zero_diagonal_skipped); exact solutions are fixed (gs_fixed_point*), only listed unknowns change (gs_indexed_only_touches), and for symmetric matrices with positive diagonal no sweep increases the energy (semi-)norm error (gs_energy_monotone*, from the identity E(x+d)=E(x)-d^T A d for subspace corrections). iterative_solve/solve_hmultigrid return (x,k) only at the first iterate meeting the reduction and (x,inf) only after max(1,maxiter) unsuccessful steps (iterative_solve_stops); twogrid (repaired) starts from any given vector and leaves its loop only for its three stated reasons (twogrid_accepts_u0_and_stops); the exact discrete solution is a fixed point of the local multigrid cycle for every number of levels, smoother, step count, prolongators and smoothing sets satisfying the stated hypotheses (mg_fixed_point, mg_fixed_point_one_level). Partial: smoothing sets only at the level of function sets (smoothing_sets_spec_partial); energy monotonicity of the cycle with exact solves only per subspace solve (mg_exact_energy_monotone_partial); both full statements, two-grid convergence and the driver return values are evaluated on the implementation on every run. Tie: ~420 (thorough 2400) Gauss-Seidel cases, 150 (600) iterative_solve cases and 40 (160) multigrid cycles are run through the implementation and through the Coq model (vm_compute) and compared under the derived bound / exactly.',
+    'level_text': 'Theorems (Coq, unbounded, exact arithmetic Qc): solvers.gauss_seidel performs exactly the row updates of the stated order for dense and CSR input, any index list, sweep and iteration count (gs_update_order); each is the textbook update of the denoted matrix for every CSR with explicit zeros, unsorted or repeated off-diagonal coordinates and at most one stored diagonal entry (gs_textbook, gs_textbook_dense, gs_dense_sparse_agree, gs_zero_diagonal_skipped); exact solutions are fixed (gs_fixed_point*), only listed unknowns change (gs_indexed_only_touches), and for symmetric matrices with positive diagonal no sweep increases the energy (semi-)norm error (gs_energy_monotone*, from the identity E(x+d)=E(x)-d^T A d for subspace corrections). iterative_solve/solve_hmultigrid return (x,k) only at the first iterate meeting the reduction and (x,inf) only after max(1,maxiter) unsuccessful steps (iterative_solve_stops); twogrid (repaired) starts from any given vector and leaves its loop only for its three stated reasons (twogrid_accepts_u0_and_stops); the exact discrete solution is a fixed point of the local multigrid cycle for every number of levels, smoother, step count, prolongators and smoothing sets satisfying the stated hypotheses (mg_fixed_point, mg_fixed_point_one_level). The cycle with exact subspace solves never increases the energy functional / energy-norm error, for every number of levels (mg_exact_J_monotone, mg_exact_energy_monotone, mg_exact_energy_monotone_dirichlet, via the Galerkin-product algebra on list matrices: galerkin_product_entries, coarse_correction_splits_J). On the C04 model of HSpace, indices_to_smooth for the strategies new and cell_supp returns valid positions, no Dirichlet dof and all new non-Dirichlet dofs, for every state (smoothing_sets_spec, dirichlet_dofs_spec). Non-canonical CSR: the routine divides by the LAST stored diagonal entry and uses the denoted off-diagonal sums (gs_row_noncanonical, gs_duplicate_diagonal_uses_last, gs_duplicate_diagonal_denoted_value, gs_duplicate_diagonal_refuted). Partial: trunc/func_supp smoothing sets only at the level of function sets (smoothing_sets_spec_partial). Two-grid convergence and the driver return values are evaluated on the implementation on every run. Tie: ~420 (thorough 2400) Gauss-Seidel cases, 150 (600) iterative_solve cases and 40 (160) multigrid cycles are run through the implementation and through the Coq model (vm_compute) and compared under the derived bound / exactly.',
     'level_note': 'Trusted: Coq kernel + vm_compute; hand transcription of relaxation_cy.pyx, solvers.gauss_seidel/iterative_solve/twogrid/local_mg_step into Gallina (validated by the correspondence run); real arithmetic instead of binary64 (bounded per case by a running forward error bound derived from operation counts, stated in harness/props/c11.py); scipy format conversions and make_solver (SuperLU/Cholesky) satisfy their contracts; the equivalence sqrt(a)/sqrt(b)<t <-> a/b<t^2. Not covered: convergence rates; HSpace state invariants and canonical numbering (C04) behind indices_to_smooth are checked only on generated spaces; twogrid convergence only by runs. Defect repaired by fixes/C11-twogrid-u0.patch: twogrid(u0=ndarray) raised ValueError.',
 }
